@@ -943,6 +943,8 @@ def parse_doc(path: Path):
                         _val(s.getInitialConcentration()) if s.isSetInitialConcentration() else None)]
                     for s in m.getListOfSpecies()],
         "compartments": [[c.getId(), _val(c.getSize())] for c in m.getListOfCompartments()],
+        "modifiers": [[r.getId(), [x.getSpecies() for x in r.getListOfModifiers()]] for r in m.getListOfReactions()],
+        "model_id": m.getId(), "unit_ids": [u.getId() for u in m.getListOfUnitDefinitions()],
         "species_attrs": [[s.getId(), s.getCompartment(), bool(s.getHasOnlySubstanceUnits()),
                            "concentration" if s.isSetInitialConcentration() else "amount"]
                           for s in m.getListOfSpecies()],
@@ -962,6 +964,7 @@ def canon_doc(d):
     return {
         "params": d["params"], "species": d["species"], "inits": [cm(x) for x in d["inits"]],
         "compartments": d.get("compartments"), "species_attrs": d.get("species_attrs"),
+        "modifiers": d.get("modifiers"), "model_id": d.get("model_id"), "unit_ids": d.get("unit_ids"),
         "rules": sorted((cm(x) for x in d["rules"]), key=lambda kv: kv[0]),  # stable: duplicates keep document order
         "rxns": [{"id": r["id"], "reactants": r["reactants"], "products": r["products"], "law": canon_math(r["law"])}
                  for r in d["rxns"]],
@@ -1450,7 +1453,17 @@ def prepare(case):
 
 
 def evaluate(ctx, cases):
-    reqs = [{"op": "c08", "model": c["wire"], "states": c["states"], "compartments": c.get("compartments")} for c in cases]
+    from datetime import UTC, datetime
+
+    today = datetime.now(UTC).date().strftime("%Y-%m-%d")
+
+    def wopts(c):
+        o = c.get("options") or {}
+        return {"model_name": o.get("model_name") or "model", "date": today,
+                "unit_ids": ["mmol"] if o.get("units") else ["per_second"]}
+
+    reqs = [{"op": "c08", "model": c["wire"], "states": c["states"], "compartments": c.get("compartments"),
+             "write_opts": wopts(c)} for c in cases]
     Ms = driver.call_batch(reqs) if ctx.driver_ok else [None] * len(cases)
     jobs = [({k: c.get(k) for k in ("kind", "model", "states", "must_raise", "source", "prev", "prev_source", "compartments", "options")},
              dict(m["names"]) if m is not None else {}) for c, m in zip(cases, Ms)]
